@@ -44,6 +44,10 @@ pub enum Fault {
     FnPanic { j: usize, stall: u16 },
     /// the upstream iterator panics inside next() for item j (ticket lock held)
     SrcPanic { j: usize, stall: u16 },
+    /// history with a second component: the loader is created, then `train_bpe` runs in the same
+    /// process (it installs its own process-global panic hook), then the processing function
+    /// panics on the first item >= j
+    FnPanicAfterTrainBpe { j: usize },
 }
 
 #[derive(Serialize, Deserialize, Clone, Debug)]
@@ -116,6 +120,13 @@ pub fn grid() -> Vec<(Shape, u8, Option<usize>, Fault)> {
             for n in [Some(40usize), None] {
                 g.push((Shape::Inference(2, 4, 1, false), w, n, Fault::SrcPanic { j, stall: 0 }));
             }
+        }
+    }
+    // ---- panic after another component replaced the process-global hook
+    for j in [0usize, 4, 8] {
+        for w in 1..=3u8 {
+            g.push((Shape::Pipe, w, None, Fault::FnPanicAfterTrainBpe { j }));
+            g.push((Shape::PipeBuffered(2), w, Some(40), Fault::FnPanicAfterTrainBpe { j }));
         }
     }
     // ---- panic cells (a worker's processing function / the upstream under the ticket lock)
@@ -200,6 +211,7 @@ impl Scenario for C09 {
         let f = match self.fault {
             Fault::Drop { k, idle } => k as u64 + (idle > 0) as u64,
             Fault::FnPanic { j, stall } | Fault::SrcPanic { j, stall } => j as u64 + (stall > 0) as u64,
+            Fault::FnPanicAfterTrainBpe { j } => j as u64 + 3,
         };
         f + self.w as u64
             + match self.shape {
@@ -227,6 +239,11 @@ impl Scenario for C09 {
                 }
                 if idle > 0 {
                     push(&|c| c.fault = Fault::Drop { k, idle: 0 });
+                }
+            }
+            Fault::FnPanicAfterTrainBpe { j } => {
+                if j > 0 {
+                    push(&|c| c.fault = Fault::FnPanicAfterTrainBpe { j: j - 1 });
                 }
             }
             Fault::FnPanic { j, stall } => {
@@ -286,6 +303,7 @@ impl Scenario for C09 {
         let fault = match self.fault {
             Fault::Drop { .. } => "drop",
             Fault::FnPanic { .. } => "fn-panic",
+            Fault::FnPanicAfterTrainBpe { .. } => "fn-panic-after-train_bpe",
             Fault::SrcPanic { .. } => "src-panic",
         };
         format!("{}/{}/{}", v.class, shape, fault)
@@ -310,10 +328,24 @@ impl Scenario for C09 {
             None
         };
         let train_file = scratch.as_ref().map(|d| d.path("train.jsonl")).unwrap_or_default();
+        let bpe_scratch = if let Fault::FnPanicAfterTrainBpe { .. } = self.fault {
+            let d = crate::c20::ScratchDir::new("c09b", self.run_seed);
+            std::fs::write(d.path("corpus.txt"), "ab ab abc\nab b\n").expect("write corpus");
+            Some(d)
+        } else {
+            None
+        };
+        let (bpe_in, bpe_out) = bpe_scratch.as_ref().map(|d| (d.path("corpus.txt"), d.path("merges.bin"))).unwrap_or_default();
         let r = run_process(&spec, move || {
             let delays = Arc::new(sc.delays.clone());
             let fn_panic_at = match sc.fault {
                 Fault::FnPanic { j, .. } => Some(j as u64),
+                _ => None,
+            };
+            let armed = Arc::new(std::sync::atomic::AtomicBool::new(false));
+            let armed2 = armed.clone();
+            let late_panic_from = match sc.fault {
+                Fault::FnPanicAfterTrainBpe { j } => Some(j as u64),
                 _ => None,
             };
             let src_panic_at = match sc.fault {
@@ -329,6 +361,12 @@ impl Scenario for C09 {
                 if Some(x) == fn_panic_at {
                     rt::log(Kind::Fault, 2, x);
                     panic!("injected: processing function fails on item {x}");
+                }
+                if let Some(from) = late_panic_from {
+                    if x >= from && armed2.load(std::sync::atomic::Ordering::SeqCst) {
+                        rt::log(Kind::Fault, 5, x);
+                        panic!("injected: processing function fails on item {x} (after train_bpe ran)");
+                    }
                 }
                 rt::log(Kind::FnEnd, x, 0);
                 f_val(x)
@@ -436,6 +474,20 @@ impl Scenario for C09 {
                     }
                     rt::log(Kind::Drop, got as u64, 0);
                     rt::log(Kind::Fault, 1, got as u64);
+                    drop(it);
+                    rt::wait_threads_exit();
+                }
+                Fault::FnPanicAfterTrainBpe { .. } => {
+                    // another component of the library runs in the same process
+                    let res = text_utils::tokenization::train_bpe(&[bpe_in.clone()], 320, 60, &bpe_out, None, None, 1, false);
+                    rt::log(Kind::Note, 1, res.is_ok() as u64);
+                    armed.store(true, std::sync::atomic::Ordering::SeqCst);
+                    let mut got = 0usize;
+                    while let Some(v) = it.next() {
+                        rt::log(Kind::Recv, got as u64, v);
+                        got += 1;
+                    }
+                    rt::log(Kind::RecvEnd, got as u64, 0);
                     drop(it);
                     rt::wait_threads_exit();
                 }
@@ -597,8 +649,11 @@ impl C09 {
                 }
                 None
             }
-            Fault::FnPanic { j, .. } | Fault::SrcPanic { j, .. } => {
+            Fault::FnPanic { j, .. } | Fault::SrcPanic { j, .. } | Fault::FnPanicAfterTrainBpe { j } => {
                 let is_src = matches!(self.fault, Fault::SrcPanic { .. });
+                if matches!(self.fault, Fault::FnPanicAfterTrainBpe { .. }) {
+                    stats.fault("other_component_replaced_the_panic_hook");
+                }
                 if !fault_fired {
                     // the stream ended before item j (cannot happen with n >= 40 > j)
                     return v("harness:fault-did-not-fire", format!("panic at item {j} never fired; status {:?}", r.status));
@@ -690,7 +745,7 @@ pub fn check(tier: Tier) -> i32 {
         stats: &rep.stats,
         exhaustive: Some(false),
     });
-    println!(
+    out!(
         "C09 {}: {} cells x {} schedules = {} runs, {} distinct non-trivial histories, {:.1}s, violations={}",
         tier.name(), cells, per_cell, rep.runs, rep.nontrivial_distinct, rep.wall_s, newv
     );
